@@ -380,6 +380,7 @@ func run(c *engine.Ctx) {
 		}
 	}
 	histories(c)
+	functionMatrix(c)
 }
 
 var lastObs [][]string
@@ -487,6 +488,132 @@ func histories(c *engine.Ctx) {
 	c.Sample(map[string]any{"history": "compile(foo(1)); runfail(a = 'x'); run(a = 'x'); compile(concat('a', 'b'))"})
 }
 
+// ---------------------------------------------------------------- function table matrix
+
+// One machine per function of the table (a call the function accepts), and
+// every function called with 0..4 arguments as the "other expression" that is
+// compiled afterwards (most arities are refused - refusing is a compilation
+// too).  Oracles: (a) a machine compiled earlier gives the same observation and
+// listing after any one later compilation as before it; (b) the outcome of a
+// compilation (listing or error text) does not depend on which compilation came
+// before it.
+var fnCalls = []string{
+	"boolean(a)", "ceiling(1.5)", "concat('a', 'b')", "contains('abc', 'b')", "re-match('abc', 'a.c')", "count(a)", "current()/a", "false()", "floor(1.5)",
+	"last()", "local-name(a)", "normalize-space(' a  b ')", "not(a)", "number('12')", "round(2.5)", "position()", "starts-with('abc', 'a')", "string(a)",
+	"string-length('abc')", "substring('12345', 2, 3)", "substring-after('a:b', ':')", "substring-before('a:b', ':')", "sum(a)", "translate('abc', 'ab', 'xy')", "true()",
+}
+
+func fnArityMenu() []string {
+	args := []string{"'12345'", "2", "3", "4"}
+	var out []string
+	for _, call := range fnCalls {
+		name := call[:strings.Index(call, "(")]
+		for k := 0; k <= len(args); k++ {
+			out = append(out, name+"("+strings.Join(args[:k], ", ")+")")
+		}
+	}
+	return out
+}
+
+func compileOutcome(src string) string {
+	m, err, p := xpx.Compile(src, nil)
+	switch {
+	case p != nil:
+		return fmt.Sprint("PANIC ", p)
+	case err != nil:
+		return "error: " + err.Error()
+	}
+	return m.PrintMachine()
+}
+
+func runObs(m *xpath.Machine) string {
+	t := mock.NewTree()
+	obs := xpx.RunMachine(m, t.At(ctxPositions[0]...))
+	return obs.String() + " listing=" + m.PrintMachine()
+}
+
+type matrixRec struct {
+	Machine string `json:"machine,omitempty"`
+	First   string `json:"compiled_first,omitempty"`
+	Then    string `json:"compiled_then"`
+}
+
+func checkMachineAfterCompile(machineSrc, other string) []engine.Violation {
+	verifrt.RestoreAll()
+	m, err, p := xpx.Compile(machineSrc, nil)
+	if err != nil || p != nil {
+		return nil // the table does not accept this call: nothing to keep immutable
+	}
+	before := runObs(m)
+	compileOutcome(other)
+	after := runObs(m)
+	if before != after {
+		return []engine.Violation{{Key: "compilation-changes-compiled-machine:" + machineSrc[:strings.Index(machineSrc, "(")], Witness: fmt.Sprintf("machine %s; then compile %s", machineSrc, other),
+			Detail: fmt.Sprintf("before the compilation the machine gives %q, after it %q", before, after), Harness: "matrix", Replay: engine.JSON(matrixRec{Machine: machineSrc, Then: other})}}
+	}
+	return nil
+}
+
+func checkCompileAfterCompile(first, then string) []engine.Violation {
+	verifrt.RestoreAll()
+	alone := compileOutcome(then)
+	verifrt.RestoreAll()
+	compileOutcome(first)
+	got := compileOutcome(then)
+	if got != alone {
+		return []engine.Violation{{Key: "compilation-depends-on-earlier-compilation:" + then[:strings.Index(then, "(")], Witness: fmt.Sprintf("compile %s; then compile %s", first, then),
+			Detail: fmt.Sprintf("alone %q, after the other compilation %q", alone, got), Harness: "matrix", Replay: engine.JSON(matrixRec{First: first, Then: then})}}
+	}
+	return nil
+}
+
+func functionMatrix(c *engine.Ctx) {
+	menu := fnArityMenu()
+	accepted := 0
+	for _, call := range fnCalls {
+		if _, err, p := xpx.Compile(call, nil); err == nil && p == nil {
+			accepted++
+		}
+	}
+	verifrt.RestoreAll()
+	c.Note(fmt.Sprintf("function matrix: %d of %d sample calls compile; %d compilations in the arity menu", accepted, len(fnCalls), len(menu)))
+	for _, call := range fnCalls {
+		for _, other := range menu {
+			if c.Expired() {
+				return
+			}
+			id := "matrix:m:" + call + "|" + other
+			if !c.Owns(id) || !c.Case(id) {
+				continue
+			}
+			c.Add("states", 1)
+			c.Nontrivial()
+			vs := checkMachineAfterCompile(call, other)
+			c.Outcome(fmt.Sprintf("matrix:machine-after-compile:changed=%v", len(vs) > 0))
+			for _, v := range vs {
+				c.Report(v)
+			}
+		}
+	}
+	for _, first := range menu {
+		for _, then := range menu {
+			if c.Expired() {
+				return
+			}
+			id := "matrix:c:" + first + "|" + then
+			if !c.Owns(id) || !c.Case(id) {
+				continue
+			}
+			c.Add("states", 1)
+			vs := checkCompileAfterCompile(first, then)
+			c.Outcome(fmt.Sprintf("matrix:compile-after-compile:changed=%v", len(vs) > 0))
+			for _, v := range vs {
+				c.Report(v)
+			}
+		}
+	}
+}
+
 func replay(c *engine.Ctx, sub string, raw json.RawMessage) []engine.Violation {
 	ensureMachines()
 	var r rec
@@ -495,6 +622,16 @@ func replay(c *engine.Ctx, sub string, raw json.RawMessage) []engine.Violation {
 	}
 	if len(r.History) > 0 {
 		return checkHistory(r.History)
+	}
+	if sub == "matrix" {
+		var mr matrixRec
+		if json.Unmarshal(raw, &mr) != nil {
+			return []engine.Violation{{Key: "harness-bad-replay-file"}}
+		}
+		if mr.Machine != "" {
+			return checkMachineAfterCompile(mr.Machine, mr.Then)
+		}
+		return checkCompileAfterCompile(mr.First, mr.Then)
 	}
 	want := make([][]string, len(r.Scenario.Threads))
 	for i, p := range r.Scenario.Threads {
